@@ -48,6 +48,9 @@ func enabledOps(cfg Cfg, head, tail uint64, a alphaOpts) []Op {
 		for lo := uint64(1); lo+2 <= n; lo++ {
 			ops = append(ops, Op{K: "gapappend", Lo: lo, Hi: lo + 2})
 		}
+	} else if head == 0 && n >= 3 {
+		// quick tier: a non-contiguous very first batch only (see F21)
+		ops = append(ops, Op{K: "gapappend", Lo: 1, Hi: 3})
 	}
 	if a.Deletes && head != 0 {
 		add := func(f, t uint64) {
